@@ -15,7 +15,7 @@
 (* Trees, the rendering of terms, keyword spellings and the multi-byte     *)
 (* characters come from the case file (JSON).                              *)
 (***************************************************************************)
-EXTENDS Naturals, Sequences, FiniteSets, TLC, Json, IOUtils
+EXTENDS Naturals, Integers, Sequences, FiniteSets, TLC, Json, IOUtils
 
 Cases == ndJsonDeserialize(IOEnv.CASES)      \* [kind |-> "select"|"update", tree, txt (lexical -> text)]
 Aux   == JsonDeserialize(IOEnv.AUX)          \* [kw (keyword -> spellings), mb (multi-byte strings), seps, comments]
@@ -48,12 +48,17 @@ BgpToks(txt, tps, k) ==
 \* with * / binding tighter: the left operand needs brackets when it binds weaker, the right operand when it does not
 \* bind tighter; redundant brackets are an equivalent spelling.
 Prec(op) == IF op \in {"+", "-"} THEN 1 ELSE 2
-RECURSIVE OperandToks(_, _, _)
-OperandToks(txt, t, minprec) ==
+RECURSIVE OperandBody(_, _, _)
+OperandBody(txt, t, minprec) ==
   IF t[1] # "ar" THEN TM(Render(txt, t))
   ELSE LET p == Prec(t[2])
-           body == OperandToks(txt, t[3], p) \o SY(t[2]) \o OperandToks(txt, t[4], p + 1)
-       IN  IF p < minprec THEN SY("(") \o body \o SY(")") ELSE ALT(body, SY("(") \o body \o SY(")"))
+           body == OperandBody(txt, t[3], p) \o SY(t[2]) \o OperandBody(txt, t[4], p + 1)
+       IN  IF p < minprec THEN SY("(") \o body \o SY(")") ELSE body
+\* redundant brackets are offered around the whole operand only: an alternative at every nesting level would double the
+\* token list per level (a tree with a few deep operands then has tens of thousands of tokens and TLC's simulation crawls)
+OperandToks(txt, t, minprec) ==
+  IF t[1] # "ar" THEN TM(Render(txt, t))
+  ELSE ALT(OperandBody(txt, t, minprec), SY("(") \o OperandBody(txt, t, 1) \o SY(")"))
 
 RECURSIVE ExprToks(_, _)
 ExprToks(txt, e) ==
@@ -151,21 +156,24 @@ Seps(a, b) == (IF a = "" THEN {""} ELSE {}) \cup {Aux.seps[k] : k \in 1..Len(Aux
 Spellings(t) == IF t.k = "kw" THEN {Aux.kw[t.s][k] : k \in 1..Len(Aux.kw[t.s])} ELSE {t.s}
 
 Init == /\ i \in 1..Len(Cases) /\ toks = PrintCase(Cases[i]) /\ text = "" /\ prev = "" /\ fault = "" /\ fat = 0 /\ done = FALSE
+\* the fault position is chosen by the first step, not by the initial state: TLC's simulator keeps every initial state in
+\* memory, and (case, position) pairs with their token lists are quadratic in the length of the texts
 FaultyInit == /\ i \in 1..Len(Cases) /\ toks = PrintCase(Cases[i]) /\ text = "" /\ prev = "" /\ fault = "" /\ done = FALSE
-              /\ fat \in 1..Len(toks)
+              /\ fat = -1
+ChooseFat == /\ fat = -1 /\ fat' \in 1..Len(toks) /\ UNCHANGED <<i, toks, text, prev, fault, done>>
 Due == fault = "" /\ fat > 0 /\ Len(toks) <= fat      \* the fault must be injected now
 
-Resolve == /\ ~done /\ toks # <<>> /\ Head(toks).k = "alt"
+Resolve == /\ ~done /\ fat # -1 /\ toks # <<>> /\ Head(toks).k = "alt"
            /\ \E c \in {"a", "b"} : toks' = (IF c = "a" THEN Head(toks).a ELSE Head(toks).b) \o Tail(toks)
            /\ UNCHANGED <<i, text, prev, fault, fat, done>>
 
-EmitTok == /\ ~done /\ toks # <<>> /\ Head(toks).k # "alt" /\ ~Due
+EmitTok == /\ ~done /\ fat # -1 /\ toks # <<>> /\ Head(toks).k # "alt" /\ ~Due
            /\ \E sp \in Spellings(Head(toks)) : \E sep \in Seps(prev, Head(toks).s) :
                 text' = text \o sep \o sp
            /\ prev' = Head(toks).s /\ toks' = Tail(toks)
            /\ UNCHANGED <<i, fault, fat, done>>
 
-Finish == /\ ~done /\ toks = <<>>
+Finish == /\ ~done /\ fat # -1 /\ toks = <<>>
           /\ \E tail \in {"", " ", "\n"} \cup {Aux.tails[k] : k \in 1..Len(Aux.tails)} : text' = text \o tail
           /\ done' = TRUE /\ UNCHANGED <<i, toks, prev, fault, fat>>
 
@@ -194,7 +202,7 @@ BadTerm == /\ ~done /\ Due /\ Len(toks) > 0 /\ Head(toks).k = "term"
            /\ fault' = "term with a malformed escape" /\ UNCHANGED <<i, text, prev, fat, done>>
 
 Next == Resolve \/ EmitTok \/ Finish
-FaultyNext == Next \/ Truncate \/ DropTok \/ DupTok \/ Multibyte \/ CutInside \/ BadTerm
+FaultyNext == ChooseFat \/ Next \/ Truncate \/ DropTok \/ DupTok \/ Multibyte \/ CutInside \/ BadTerm
 Spec == Init /\ [][Next]_vars
 FaultySpec == FaultyInit /\ [][FaultyNext]_vars
 
